@@ -539,10 +539,42 @@ func isNilConst(v ssa.Value) bool {
 // ---------------------------------------------------------------------------------------------
 // edge facts
 
-// Fact: value V is known to be True/False.
+// Fact: value V is known to be True/False. Sub translates access paths of V (which may belong to another function: a
+// helper whose success implies the fact, or a caller whose call sites all establish it) into the frame of the block the
+// fact is reported for.
 type Fact struct {
 	V    ssa.Value
 	True bool
+	Sub  *factSub
+}
+
+type factSub struct{ pairs [][2]string } // (path prefix in V's frame, replacement in the reporting frame)
+
+func trimAddr(p string) string {
+	for strings.HasPrefix(p, "&") || strings.HasPrefix(p, "*") {
+		p = p[1:]
+	}
+	return p
+}
+
+// pathOf: access path of v (a value in the fact's own frame) expressed in the reporting frame.
+func (f Fact) pathOf(v ssa.Value) string { return f.Sub.apply(accessPath(v)) }
+
+func (s *factSub) apply(p string) string {
+	if s == nil {
+		return p
+	}
+	lead := p[:len(p)-len(trimAddr(p))]
+	core := trimAddr(p)
+	for _, pr := range s.pairs {
+		if core == pr[0] {
+			return lead + pr[1]
+		}
+		if strings.HasPrefix(core, pr[0]+".") {
+			return lead + pr[1] + core[len(pr[0]):]
+		}
+	}
+	return p
 }
 
 func dominates(a, b *ssa.BasicBlock) bool { return a.Dominates(b) }
@@ -565,12 +597,312 @@ func edgeDominates(from, to, b *ssa.BasicBlock) bool {
 	return cnt == 1
 }
 
-// factsAt returns the branch conditions known at entry of block b (normalised through "!").
+// factsAt returns what is known at entry of block b: the dominating branch conditions (normalised through "!" and
+// boolean phis), plus facts implied by helpers (a call whose error is known nil / whose bool result is known establishes
+// what the helper's matching returns establish) and, for unexported helpers, what all their call sites establish.
 func factsAt(b *ssa.BasicBlock) []Fact {
+	if r, ok := factCache[b]; ok {
+		return r
+	}
+	if factBusy[b] {
+		return baseFactsAt(b)
+	}
+	factBusy[b] = true
+	defer delete(factBusy, b)
+	base := baseFactsAt(b)
+	out := append([]Fact{}, base...)
+	seen := map[Fact]bool{}
+	for _, f := range base {
+		seen[f] = true
+	}
+	for _, f := range base {
+		for _, g := range postFacts(f) {
+			if !seen[g] {
+				seen[g] = true
+				out = append(out, g)
+			}
+		}
+	}
+	if fn := b.Parent(); fn != nil {
+		for _, g := range entryFacts(fn) {
+			if !seen[g] {
+				seen[g] = true
+				out = append(out, g)
+			}
+		}
+	}
+	factCache[b] = out
+	return out
+}
+
+var factCache = map[*ssa.BasicBlock][]Fact{}
+var factBusy = map[*ssa.BasicBlock]bool{}
+
+func baseFactsAt(b *ssa.BasicBlock) []Fact {
 	var out []Fact
 	for d := b.Idom(); d != nil; d = d.Idom() {
 		out = append(out, factsFromIf(d, b)...)
 	}
+	return out
+}
+
+// callSub: substitution from callee parameter paths to the argument paths of call c.
+func callSub(callee *ssa.Function, c *ssa.CallCommon) *factSub {
+	s := &factSub{}
+	args := callArgs(c)
+	for k, p := range callee.Params {
+		if k < len(args) {
+			s.pairs = append(s.pairs, [2]string{"P:" + p.Name(), trimAddr(accessPath(args[k]))})
+		}
+	}
+	return s
+}
+
+// factKey canonicalises a fact (in its reporting frame) so that facts from different sites can be intersected.
+func factKey(f Fact) string {
+	if x, isNil, ok := nilTest(f); ok {
+		return fmt.Sprintf("nil(%s)=%v", trimAddr(f.pathOf(x)), isNil)
+	}
+	if b, ok := f.V.(*ssa.BinOp); ok {
+		return fmt.Sprintf("%s %s %s = %v", exprKey(f, b.X), b.Op, exprKey(f, b.Y), f.True)
+	}
+	return fmt.Sprintf("%s = %v", exprKey(f, f.V), f.True)
+}
+
+func exprKey(f Fact, v ssa.Value) string {
+	v = resolve(v)
+	if k, ok := constOf(v); ok {
+		return k.ExactString()
+	}
+	if cv, ok := v.(*ssa.Call); ok {
+		name := calleeName(cv)
+		var parts []string
+		for _, a := range callArgs(&cv.Call) {
+			parts = append(parts, exprKey(f, a))
+		}
+		if b, isB := cv.Call.Value.(*ssa.Builtin); isB {
+			name = b.Name()
+		}
+		return name + "(" + strings.Join(parts, ",") + ")"
+	}
+	return trimAddr(f.pathOf(v))
+}
+
+var successCache = map[string][]Fact{}
+
+// returnFacts: facts common to all returns of h selected by sel (in h's own frame).
+func returnFacts(h *ssa.Function, key string, sel func(*ssa.Return) bool) []Fact {
+	ck := h.String() + "/" + key
+	if r, ok := successCache[ck]; ok {
+		return r
+	}
+	successCache[ck] = nil // recursion guard
+	var common map[string]Fact
+	n := 0
+	for _, r := range returnsOf(h) {
+		if !sel(r) {
+			continue
+		}
+		n++
+		set := map[string]Fact{}
+		for _, f := range factsAt(r.Block()) {
+			set[factKey(f)] = f
+		}
+		if common == nil {
+			common = set
+		} else {
+			for k := range common {
+				if _, ok := set[k]; !ok {
+					delete(common, k)
+				}
+			}
+		}
+	}
+	var out []Fact
+	if n > 0 {
+		for _, f := range common {
+			out = append(out, f)
+		}
+	}
+	successCache[ck] = out
+	return out
+}
+
+// postFacts: facts implied by fact f through a helper call: `err == nil` of h(...) implies what every nil-error return
+// of h establishes; a known bool result of h(...) implies what every return of that constant establishes.
+func postFacts(f Fact) []Fact {
+	if f.Sub != nil {
+		return nil // one level of helper only
+	}
+	var call *ssa.Call
+	var sel func(*ssa.Return) bool
+	key := ""
+	if x, isNil, ok := nilTest(f); ok && isNil && isErrorType(x.Type()) {
+		switch y := strip(x).(type) {
+		case *ssa.Extract:
+			call, _ = y.Tuple.(*ssa.Call)
+		case *ssa.Call:
+			call = y
+		case *ssa.UnOp: // err stored in a slot (`if err := h(); err != nil`)
+			if r := resolve(y); r != y {
+				switch z := r.(type) {
+				case *ssa.Extract:
+					call, _ = z.Tuple.(*ssa.Call)
+				case *ssa.Call:
+					call = z
+				}
+			}
+		}
+		key = "ok"
+		sel = func(r *ssa.Return) bool {
+			return len(r.Results) > 0 && isNilValue(returnedValue(r, len(r.Results)-1))
+		}
+	} else if cv, ok := strip(f.V).(*ssa.Call); ok && cv.Type().String() == "bool" {
+		call = cv
+		want := "false"
+		if f.True {
+			want = "true"
+		}
+		key = want
+		sel = func(r *ssa.Return) bool {
+			if len(r.Results) != 1 {
+				return false
+			}
+			k, isC := constOf(returnedValue(r, 0))
+			return isC && k.ExactString() == want
+		}
+	}
+	if call == nil {
+		return nil
+	}
+	h := staticCallee(call)
+	if h == nil || h.Blocks == nil || h.Pkg == nil || !strings.HasPrefix(h.Pkg.Pkg.Path(), "github.com/godaddy/asherah/") {
+		return nil
+	}
+	sub := callSub(h, &call.Call)
+	var out []Fact
+	for _, g := range returnFacts(h, key, sel) {
+		if g.Sub != nil {
+			continue
+		}
+		out = append(out, Fact{g.V, g.True, sub})
+	}
+	return out
+}
+
+var callSiteIndex map[*ssa.Function][]ssa.CallInstruction
+var addressTaken map[*ssa.Function]bool
+var callSiteProg *ssa.Program
+
+func buildCallSiteIndex(fn *ssa.Function) {
+	if callSiteProg == fn.Prog && callSiteIndex != nil {
+		return
+	}
+	callSiteProg = fn.Prog
+	callSiteIndex = map[*ssa.Function][]ssa.CallInstruction{}
+	addressTaken = map[*ssa.Function]bool{}
+	var visit func(f *ssa.Function)
+	seen := map[*ssa.Function]bool{}
+	visit = func(f *ssa.Function) {
+		if f == nil || seen[f] {
+			return
+		}
+		seen[f] = true
+		for _, b := range f.Blocks {
+			for _, i := range b.Instrs {
+				if ci, ok := i.(ssa.CallInstruction); ok {
+					if callee := ci.Common().StaticCallee(); callee != nil {
+						callSiteIndex[orig(callee)] = append(callSiteIndex[orig(callee)], ci)
+					}
+				}
+				for _, op := range i.Operands(nil) {
+					if g, ok := (*op).(*ssa.Function); ok {
+						if ci, isCall := i.(ssa.CallInstruction); !isCall || ci.Common().Value != *op {
+							addressTaken[orig(g)] = true
+						}
+					}
+				}
+			}
+		}
+		for _, a := range f.AnonFuncs {
+			visit(a)
+		}
+	}
+	for _, p := range fn.Prog.AllPackages() {
+		if !strings.HasPrefix(p.Pkg.Path(), "github.com/godaddy/asherah/") && !strings.HasPrefix(p.Pkg.Path(), "fixtures") {
+			continue
+		}
+		for _, m := range p.Members {
+			switch x := m.(type) {
+			case *ssa.Function:
+				visit(x)
+			case *ssa.Type:
+				if n, ok := x.Type().(*types.Named); ok {
+					for k := 0; k < n.NumMethods(); k++ {
+						visit(fn.Prog.FuncValue(n.Method(k)))
+					}
+				}
+			}
+		}
+	}
+}
+
+var entryCache = map[*ssa.Function][]Fact{}
+
+// entryFacts: for an unexported, never address-taken helper all of whose uses are static calls, the facts that hold at
+// every call site (translated into the helper's frame).
+func entryFacts(h *ssa.Function) []Fact {
+	if r, ok := entryCache[h]; ok {
+		return r
+	}
+	entryCache[h] = nil
+	if h.Parent() != nil || h.Object() == nil || h.Object().Exported() {
+		return nil
+	}
+	buildCallSiteIndex(h)
+	sites := callSiteIndex[h]
+	if len(sites) == 0 || addressTaken[h] {
+		return nil
+	}
+	var common map[string]Fact
+	for _, site := range sites {
+		if _, isGo := site.(*ssa.Go); isGo {
+			return nil
+		}
+		if _, isDefer := site.(*ssa.Defer); isDefer {
+			return nil
+		}
+		// caller → callee substitution
+		sub := &factSub{}
+		args := callArgs(site.Common())
+		for k, p := range h.Params {
+			if k < len(args) {
+				sub.pairs = append(sub.pairs, [2]string{trimAddr(accessPath(args[k])), "P:" + p.Name()})
+			}
+		}
+		set := map[string]Fact{}
+		for _, f := range factsAt(site.Block()) {
+			if f.Sub != nil {
+				continue
+			}
+			g := Fact{f.V, f.True, sub}
+			set[factKey(g)] = g
+		}
+		if common == nil {
+			common = set
+		} else {
+			for k := range common {
+				if _, ok := set[k]; !ok {
+					delete(common, k)
+				}
+			}
+		}
+	}
+	var out []Fact
+	for _, f := range common {
+		out = append(out, f)
+	}
+	entryCache[h] = out
 	return out
 }
 
@@ -584,10 +916,10 @@ func factsFromIf(d, b *ssa.BasicBlock) []Fact {
 	}
 	var out []Fact
 	if edgeDominates(d, d.Succs[0], b) {
-		out = append(out, normFact(Fact{iff.Cond, true})...)
+		out = append(out, normFact(Fact{V: iff.Cond, True: true})...)
 	}
 	if edgeDominates(d, d.Succs[1], b) {
-		out = append(out, normFact(Fact{iff.Cond, false})...)
+		out = append(out, normFact(Fact{V: iff.Cond, True: false})...)
 	}
 	return out
 }
@@ -602,10 +934,10 @@ func edgeFacts(from, to *ssa.BasicBlock) []Fact {
 		return nil
 	}
 	if from.Succs[0] == to {
-		return normFact(Fact{iff.Cond, true})
+		return normFact(Fact{V: iff.Cond, True: true})
 	}
 	if from.Succs[1] == to {
-		return normFact(Fact{iff.Cond, false})
+		return normFact(Fact{V: iff.Cond, True: false})
 	}
 	return nil
 }
@@ -643,7 +975,7 @@ func normFactN(f Fact, depth int) []Fact {
 		pred := phi.Block().Preds[k]
 		set := map[Fact]bool{}
 		if _, isC := constOf(e); !isC {
-			for _, g := range normFactN(Fact{e, f.True}, depth+1) {
+			for _, g := range normFactN(Fact{V: e, True: f.True}, depth+1) {
 				set[g] = true
 			}
 		}
@@ -694,9 +1026,9 @@ func nilTest(f Fact) (x ssa.Value, isNil bool, ok bool) {
 
 // knownNonNil: at entry of block b, value v (by access path) is known non-nil.
 func knownNonNil(v ssa.Value, b *ssa.BasicBlock) bool {
-	ap := accessPath(v)
+	ap := trimAddr(accessPath(v))
 	for _, f := range factsAt(b) {
-		if x, isNil, ok := nilTest(f); ok && !isNil && accessPath(x) == ap {
+		if x, isNil, ok := nilTest(f); ok && !isNil && trimAddr(f.pathOf(x)) == ap {
 			return true
 		}
 	}
@@ -705,9 +1037,9 @@ func knownNonNil(v ssa.Value, b *ssa.BasicBlock) bool {
 
 // knownNil: at entry of b, v is known nil.
 func knownNil(v ssa.Value, b *ssa.BasicBlock) bool {
-	ap := accessPath(v)
+	ap := trimAddr(accessPath(v))
 	for _, f := range factsAt(b) {
-		if x, isNil, ok := nilTest(f); ok && isNil && accessPath(x) == ap {
+		if x, isNil, ok := nilTest(f); ok && isNil && trimAddr(f.pathOf(x)) == ap {
 			return true
 		}
 	}
@@ -716,9 +1048,9 @@ func knownNil(v ssa.Value, b *ssa.BasicBlock) bool {
 
 // knownBool: at entry of b, boolean v (by access path) has known truth value.
 func knownBool(v ssa.Value, b *ssa.BasicBlock) (val bool, ok bool) {
-	ap := accessPath(v)
+	ap := trimAddr(accessPath(v))
 	for _, f := range factsAt(b) {
-		if accessPath(f.V) == ap {
+		if trimAddr(f.pathOf(f.V)) == ap {
 			return f.True, true
 		}
 	}
